@@ -155,6 +155,14 @@ fn run_config(globals: &[GlobalCfg], nested: bool, out: &mut Out) -> bool {
             }
         }
     }
+    if nested {
+        // a decoy under the same name in the enclosing set: the nested binding must win
+        for (i, g) in globals.iter().enumerate() {
+            if g.supply.is_some() && i % 2 == 1 {
+                let _ = outer.add(Identifier::from(format!("g{}", i).as_str()), tree_sitter_graph::graph::Value::String("decoy from the enclosing set".into()));
+            }
+        }
+    }
     outer.add(Identifier::from("unrelated"), 1u32.into()).ok();
     let outer_before = snapshot(&outer);
     let mut inner = Variables::nested(&outer);
